@@ -505,7 +505,7 @@ func RunStep(authority []byte, req sdk.Msg, call func(ctx context.Context) error
 	CheckC06(s.Sk.Acct, s.Sk.Batch)
 	CheckC09()
 	CheckRefs()
-	CheckSealed()
+	CheckSealed(s.Sk.Batch)
 	if s.Err == nil {
 		zz.Reach("handler succeeds")
 	} else if s.Panicked {
